@@ -129,7 +129,11 @@ class SchemaLLSD(SchemaFieldSerializer[_T]):
     @classmethod
     def serialize(cls, val: _T) -> str:
         # Don't include the XML header
-        return llsd.format_xml(val).split(b">", 1)[1].decode("utf8") + "\n|"
+        xml = llsd.format_xml(val).split(b">", 1)[1].decode("utf8")
+        # The field ends at the first `|`, and the line-based format has no room for raw tabs
+        # or newlines in a value either. Character references come out the same when parsed.
+        xml = xml.replace("|", "&#124;").replace("\n", "&#10;").replace("\t", "&#9;").replace("\r", "&#13;")
+        return xml + "\n|"
 
 
 _SCHEMA_SPEC = Union[Type[Union["SchemaBase", SchemaFieldSerializer]], SchemaFieldSerializer]
